@@ -177,7 +177,7 @@ pub async fn one(ctx: &mut Ctx<'_>, r: &mut Rng, len: usize, brk: Break, brk_at:
     let online = Online { ts_sigs: valid_sigs(&[se.ts]), snap_sigs: valid_sigs(&[se.snap]), ts_expires: DAY, snap_expires: 3 * DAY };
     let asm = assemble(&mut world, cs, 1, 1, &base.top, &base.roles, Pin { length: r.chance(1, 2), hash: r.chance(1, 2) }, &online, &mut msgs);
     server.extend(asm.server);
-    let cyc = ACycle { limits: ALimits { max_root_updates: max_updates, ..ALimits::default() }, safe: true, now: 0, server, shipped: Some(shipped) };
+    let cyc = ACycle { limits: ALimits { max_root_updates: max_updates, ..ALimits::default() }, safe: true, now: 0, server, shipped: Some(shipped), reads: vec![] };
     let nontrivial = len >= 1 && (brk != Break::None || sign_epoch.min(len) != len);
     let class = format!("chain{len}-{brk:?}");
     ctx.emit(&mut world, &class, &[cyc], nontrivial, json!({"kinds": kinds, "break_at": brk_at, "sign_epoch": sign_epoch, "max_updates": max_updates})).await;
